@@ -1,597 +1,4 @@
-// C16 correspondence driver: runs the REAL provisioning code (provision.rs, provision_wrapper.rs,
-// proxy_server.rs /provision handler) under chosen schedules.
-//
-// stdin: one JSON scenario per line; stdout: one line `@@ <json>` per scenario (other stdout lines are
-// the agent's own console logging and are ignored by the check).  No command-line arguments.
-// Environment: C16_DIR = scratch directory (keys/logs/events live below it).
-//
-// Scenario kinds
-//  {"kind":"sched","setup":{..},"tasks":[..],"sched":[tid,..]}
-//      hand-polled schedule on a current_thread runtime: entry `tid` polls task tid's future ONCE with
-//      a no-op waker, then lets the actor tasks drain (50 x yield_now), then snapshots (flags, tick)
-//      through the public getters.  A query task's first entry only creates the query (reads the
-//      clock / the current tick); later entries poll get_provision_state_internal.
-//  {"kind":"http","setup":{..},"ops":[..]}
-//      the real listener on 127.0.0.1 (ProxyServer::start, which itself reports LISTENER_READY), ops
-//      run to completion one after another, /provision queries go through the real HTTP handler.
-//  {"kind":"threads","iters":N}      F11: two real writers on a multi-thread runtime + a reader.
-//  {"kind":"write","old":"..","msg":".."}   one provision_timeup(Some(dir)) over an existing status.tag
-//      (used under `strace` kill injection: every crash point must show old or new content).
-use gpa::provision;
-use gpa::shared_state::agent_status_wrapper::AgentStatusModule;
-use gpa::shared_state::SharedState;
-use serde_json::{json, Value};
-use std::future::Future;
-use std::io::{self, BufRead, Write};
-use std::path::PathBuf;
-use std::pin::Pin;
-use std::sync::Arc;
-use std::task::{Context, Poll, Wake, Waker};
-
-struct NoopWake;
-impl Wake for NoopWake {
-    fn wake(self: Arc<Self>) {}
-}
-
-fn now() -> i128 {
-    proxy_agent_shared::misc_helpers::get_date_time_unix_nano()
-}
-
-/// wait until the wall clock has visibly advanced (so that instants taken before and after are
-/// strictly ordered whatever the clock resolution)
-fn tick_clock() -> i128 {
-    let t0 = now();
-    loop {
-        let t = now();
-        if t > t0 {
-            return t;
-        }
-        std::hint::spin_loop();
-    }
-}
-
-async fn drain() {
-    for _ in 0..50 {
-        tokio::task::yield_now().await;
-    }
-}
-
-fn base_dir() -> PathBuf {
-    PathBuf::from(std::env::var("C16_DIR").expect("C16_DIR not set"))
-}
-
-fn keys_dir() -> PathBuf {
-    base_dir().join("keys")
-}
-
-fn write_config() {
-    let exe = std::env::current_exe().unwrap();
-    let cfg = exe.parent().unwrap().join("proxy-agent.json");
-    let b = base_dir();
-    let v = json!({
-        "logFolder": b.join("logs").to_str().unwrap(),
-        "eventFolder": b.join("events").to_str().unwrap(),
-        "latchKeyFolder": keys_dir().to_str().unwrap(),
-        "monitorIntervalInSeconds": 60,
-        "pollKeyStatusIntervalInSeconds": 15,
-        "hostGAPluginSupport": 1,
-        "ebpfProgramName": "ebpf_cgroup.o",
-        "cgroupRoot": b.join("cgroup").to_str().unwrap(),
-        "fileLogLevel": "Trace"
-    });
-    std::fs::write(cfg, serde_json::to_vec_pretty(&v).unwrap()).unwrap();
-    let _ = std::fs::create_dir_all(keys_dir());
-}
-
-fn clean_keys_dir(old_tag: Option<&str>) {
-    let d = keys_dir();
-    for n in ["provisioned.tag", "status.tag", "status.tag.tmp"] {
-        let _ = std::fs::remove_file(d.join(n));
-    }
-    if let Some(c) = old_tag {
-        std::fs::write(d.join("status.tag"), c.as_bytes()).unwrap();
-    }
-}
-
-fn read_opt(p: PathBuf) -> Value {
-    match std::fs::read(p) {
-        Ok(b) => Value::String(String::from_utf8_lossy(&b).to_string()),
-        Err(_) => Value::Null,
-    }
-}
-
-fn fs_snapshot() -> Value {
-    let d = keys_dir();
-    json!({
-        "provisioned": d.join("provisioned.tag").exists(),
-        "tmp": read_opt(d.join("status.tag.tmp")),
-        "tag": read_opt(d.join("status.tag")),
-    })
-}
-
-fn module_of(s: &str) -> AgentStatusModule {
-    match s {
-        "R" => AgentStatusModule::Redirector,
-        "K" => AgentStatusModule::KeyKeeper,
-        _ => AgentStatusModule::ProxyServer,
-    }
-}
-
-async fn apply_setup(st: &SharedState, setup: &Value) {
-    let prov = st.get_provision_shared_state();
-    let ags = st.get_agent_status_shared_state();
-    let kk = st.get_key_keeper_shared_state();
-    if setup.get("evt").and_then(|v| v.as_bool()).unwrap_or(true) {
-        // keep start_event_threads on its early-return path: the event/status tasks it would
-        // spawn write below /var/log/azure-proxy-agent
-        prov.set_event_log_threads_initialized().await.unwrap();
-    }
-    if let Some(m) = setup.get("msgs").and_then(|v| v.as_object()) {
-        for (k, v) in m {
-            ags.set_module_status_message(v.as_str().unwrap().to_string(), module_of(k))
-                .await
-                .unwrap();
-        }
-    }
-    if let Some(c) = setup.get("chan").and_then(|v| v.as_str()) {
-        kk.update_current_secure_channel_state(c.to_string())
-            .await
-            .unwrap();
-    }
-    clean_keys_dir(setup.get("old_tag").and_then(|v| v.as_str()));
-}
-
-enum TaskOut {
-    Done,
-    Query(provision::ProvisionStateInternal),
-}
-
-type Fut = Pin<Box<dyn Future<Output = TaskOut>>>;
-
-fn make_future(st: &SharedState, task: &Value) -> Fut {
-    let ct = st.get_cancellation_token();
-    let kk = st.get_key_keeper_shared_state();
-    let tel = st.get_telemetry_shared_state();
-    let prov = st.get_provision_shared_state();
-    let ags = st.get_agent_status_shared_state();
-    let op = task["op"].as_str().unwrap().to_string();
-    match op.as_str() {
-        "report" => {
-            let flag = task["flag"].as_str().unwrap().to_string();
-            Box::pin(async move {
-                match flag.as_str() {
-                    "R" => provision::redirector_ready(ct, kk, tel, prov, ags).await,
-                    "K" => provision::key_latched(ct, kk, tel, prov, ags).await,
-                    _ => provision::listener_started(ct, kk, tel, prov, ags).await,
-                }
-                TaskOut::Done
-            })
-        }
-        "reset" => Box::pin(async move {
-            provision::key_latch_ready_state_reset(prov).await;
-            TaskOut::Done
-        }),
-        "timeup" => Box::pin(async move {
-            provision::provision_timeup(None, prov, ags).await;
-            TaskOut::Done
-        }),
-        "setchan" => {
-            let v = task["v"].as_str().unwrap().to_string();
-            Box::pin(async move {
-                // the key keeper's own update path: read, compare, set (two actor messages when it changes)
-                let _ = kk.update_current_secure_channel_state(v).await;
-                TaskOut::Done
-            })
-        }
-        "setmsg" => {
-            let m = module_of(task["m"].as_str().unwrap());
-            let v = task["v"].as_str().unwrap().to_string();
-            Box::pin(async move {
-                let _ = ags.set_module_status_message(v, m).await;
-                TaskOut::Done
-            })
-        }
-        "query" => Box::pin(async move {
-            TaskOut::Query(provision::get_provision_state_internal(prov, ags, kk).await)
-        }),
-        other => panic!("unknown op {}", other),
-    }
-}
-
-/// the formula of proxy_server.rs handle_provision_state_check_request
-/// (`finished_time_tick >= query_time_tick || is_secure_channel_latched()`), recomputed for the
-/// hand-polled queries; the "http" scenarios go through the real handler instead.
-fn finished_formula(s: &provision::ProvisionStateInternal, q: i128) -> bool {
-    s.finished_time_tick >= q || s.is_secure_channel_latched()
-}
-
-async fn snapshot(st: &SharedState) -> (u8, i128) {
-    let prov = st.get_provision_shared_state();
-    let f = prov.get_state().await.map(|f| f.bits()).unwrap_or(255);
-    let t = prov.get_provision_finished().await.unwrap_or(-1);
-    (f, t)
-}
-
-async fn make_query_tick(st: &SharedState, spec: &str) -> i128 {
-    if spec == "now" {
-        return tick_clock();
-    }
-    if let Some(c) = spec.strip_prefix("const:") {
-        return c.parse::<i128>().unwrap();
-    }
-    let t = st
-        .get_provision_shared_state()
-        .get_provision_finished()
-        .await
-        .unwrap();
-    match spec {
-        "tick" => t,
-        "tick+1" => t + 1,
-        "tick-1" => t - 1,
-        _ => panic!("bad query tick spec {}", spec),
-    }
-}
-
-fn run_sched(sc: &Value) -> Value {
-    let rt = tokio::runtime::Builder::new_current_thread()
-        .enable_all()
-        .build()
-        .unwrap();
-    let out = rt.block_on(async {
-        let st = SharedState::start_all();
-        apply_setup(&st, &sc["setup"]).await;
-        drain().await;
-        let tasks = sc["tasks"].as_array().unwrap();
-        let n = tasks.len();
-        let mut futs: Vec<Option<Fut>> = (0..n).map(|_| None).collect();
-        let mut done: Vec<bool> = vec![false; n];
-        let mut polls: Vec<u32> = vec![0; n];
-        let mut qtick: Vec<Option<i128>> = vec![None; n];
-        let mut results: Vec<Value> = vec![Value::Null; n];
-        let waker = Waker::from(Arc::new(NoopWake));
-        let mut steps = Vec::new();
-        let (f0, t0) = snapshot(&st).await;
-        let start_clock = tick_clock();
-        for e in sc["sched"].as_array().unwrap() {
-            let tid = e.as_u64().unwrap() as usize;
-            let c0 = tick_clock();
-            let mut noop = false;
-            let is_query = tasks[tid]["op"] == "query";
-            if done[tid] {
-                noop = true;
-            } else if is_query && qtick[tid].is_none() {
-                // creation of the query: ProvisionQuery::new reads the clock (or a chosen tick)
-                let q = make_query_tick(&st, tasks[tid]["q"].as_str().unwrap()).await;
-                qtick[tid] = Some(q);
-            } else {
-                if futs[tid].is_none() {
-                    futs[tid] = Some(make_future(&st, &tasks[tid]));
-                }
-                let mut cx = Context::from_waker(&waker);
-                polls[tid] += 1;
-                match futs[tid].as_mut().unwrap().as_mut().poll(&mut cx) {
-                    Poll::Ready(o) => {
-                        done[tid] = true;
-                        futs[tid] = None;
-                        if let TaskOut::Query(s) = o {
-                            let q = qtick[tid].unwrap();
-                            results[tid] = json!({
-                                "q": q.to_string(),
-                                "tick": s.finished_time_tick.to_string(),
-                                "err": s.error_message,
-                                "chan": s.key_keeper_secure_channel_state,
-                                "latched": s.is_secure_channel_latched(),
-                                "finished": finished_formula(&s, q),
-                            });
-                        }
-                    }
-                    Poll::Pending => {}
-                }
-                drain().await;
-            }
-            tick_clock();
-            let (f, t) = snapshot(&st).await;
-            let c1 = tick_clock();
-            steps.push(json!({"tid": tid, "noop": noop, "flags": f, "tick": t.to_string(),
-                              "c0": c0.to_string(), "c1": c1.to_string()}));
-        }
-        let evt = st
-            .get_provision_shared_state()
-            .get_event_log_threads_initialized()
-            .await
-            .unwrap_or(false);
-        let qt: Vec<Value> = qtick
-            .iter()
-            .map(|q| q.map(|v| Value::String(v.to_string())).unwrap_or(Value::Null))
-            .collect();
-        json!({"init": {"flags": f0, "tick": t0.to_string(), "clock": start_clock.to_string()},
-               "steps": steps, "polls": polls, "done": done, "results": results, "qticks": qt,
-               "fs": fs_snapshot(), "evt": evt})
-    });
-    drop(rt);
-    out
-}
-
-// ------------------------------------------------------------------------------------------
-// the real listener
-// ------------------------------------------------------------------------------------------
-fn free_port() -> u16 {
-    let l = std::net::TcpListener::bind("127.0.0.1:0").unwrap();
-    l.local_addr().unwrap().port()
-}
-
-async fn http_get_provision(port: u16, tick_hdr: Option<String>, metadata: bool, notify: bool) -> Value {
-    use tokio::io::{AsyncReadExt, AsyncWriteExt};
-    let mut s = match tokio::net::TcpStream::connect(("127.0.0.1", port)).await {
-        Ok(s) => s,
-        Err(e) => return json!({"error": format!("connect: {}", e)}),
-    };
-    let mut req = String::from("GET /provision HTTP/1.1\r\nHost: 127.0.0.1\r\nConnection: close\r\n");
-    if metadata {
-        req.push_str("Metadata: true\r\n");
-    }
-    if let Some(t) = tick_hdr {
-        req.push_str(&format!("x-ms-azure-time_tick: {}\r\n", t));
-    }
-    if notify {
-        req.push_str("x-ms-azure-notify: true\r\n");
-    }
-    req.push_str("\r\n");
-    if let Err(e) = s.write_all(req.as_bytes()).await {
-        return json!({"error": format!("write: {}", e)});
-    }
-    let mut buf = Vec::new();
-    let _ = tokio::time::timeout(std::time::Duration::from_secs(20), s.read_to_end(&mut buf)).await;
-    let text = String::from_utf8_lossy(&buf).to_string();
-    let status = text
-        .split(' ')
-        .nth(1)
-        .and_then(|c| c.parse::<u16>().ok())
-        .unwrap_or(0);
-    let body = match text.find("\r\n\r\n") {
-        Some(i) => text[i + 4..].to_string(),
-        None => String::new(),
-    };
-    match serde_json::from_str::<Value>(&body) {
-        Ok(v) => json!({"status": status, "finished": v["finished"], "err": v["errorMessage"]}),
-        Err(_) => json!({"status": status, "body": body}),
-    }
-}
-
-fn run_http(sc: &Value) -> Value {
-    let rt = tokio::runtime::Builder::new_current_thread()
-        .enable_all()
-        .build()
-        .unwrap();
-    let out = rt.block_on(async {
-        let st = SharedState::start_all();
-        apply_setup(&st, &sc["setup"]).await;
-        let mut port = 0u16;
-        let mut started = false;
-        for _ in 0..20 {
-            port = free_port();
-            let server = gpa::proxy::proxy_server::ProxyServer::new(port, &st);
-            tokio::spawn(async move {
-                server.start().await;
-            });
-            // the listener reports LISTENER_READY itself once it is bound
-            for _ in 0..2000 {
-                tokio::time::sleep(std::time::Duration::from_millis(2)).await;
-                let (f, _) = snapshot(&st).await;
-                if f & 4 != 0 {
-                    started = true;
-                    break;
-                }
-            }
-            if started {
-                break;
-            }
-        }
-        if !started {
-            return json!({"error": "listener did not start"});
-        }
-        drain().await;
-        let (f0, t0) = snapshot(&st).await;
-        let start_clock = tick_clock();
-        let mut steps = Vec::new();
-        for op in sc["ops"].as_array().unwrap() {
-            let c0 = tick_clock();
-            let mut res = Value::Null;
-            let mut qs = Value::Null;
-            if op["op"] == "httpquery" {
-                let spec = op["q"].as_str().unwrap();
-                let hdr = if spec == "none" {
-                    None
-                } else if let Some(raw) = spec.strip_prefix("raw:") {
-                    Some(raw.to_string())
-                } else {
-                    let q = make_query_tick(&st, spec).await;
-                    qs = Value::String(q.to_string());
-                    Some(q.to_string())
-                };
-                let metadata = op.get("metadata").and_then(|v| v.as_bool()).unwrap_or(true);
-                let notify = op.get("notify").and_then(|v| v.as_bool()).unwrap_or(false);
-                tick_clock();
-                res = http_get_provision(port, hdr, metadata, notify).await;
-            } else {
-                let fut = make_future(&st, op);
-                fut.await;
-            }
-            drain().await;
-            tick_clock();
-            let (f, t) = snapshot(&st).await;
-            let chan = st
-                .get_key_keeper_shared_state()
-                .get_current_secure_channel_state()
-                .await
-                .unwrap_or_default();
-            let c1 = tick_clock();
-            steps.push(json!({"flags": f, "tick": t.to_string(), "c0": c0.to_string(), "c1": c1.to_string(),
-                              "q": qs, "res": res, "chan": chan}));
-        }
-        st.cancel_cancellation_token();
-        drain().await;
-        json!({"init": {"flags": f0, "tick": t0.to_string(), "clock": start_clock.to_string()},
-               "steps": steps, "fs": fs_snapshot()})
-    });
-    rt.shutdown_timeout(std::time::Duration::from_millis(200));
-    out
-}
-
-// ------------------------------------------------------------------------------------------
-// F11: two writers of status.tag on different worker threads
-// ------------------------------------------------------------------------------------------
-fn run_threads(sc: &Value) -> Value {
-    use std::sync::atomic::{AtomicBool, AtomicU64, Ordering};
-    let iters = sc["iters"].as_u64().unwrap_or(2000);
-    let writers = sc["writers"].as_u64().unwrap_or(2);
-    let dir = base_dir().join(format!("f11-{}", std::process::id()));
-    let _ = std::fs::remove_dir_all(&dir);
-    std::fs::create_dir_all(&dir).unwrap();
-    let msg_a: String = "A".repeat(900);
-    let msg_b: String = "B".repeat(300);
-    let stop = Arc::new(AtomicBool::new(false));
-    let reads = Arc::new(AtomicU64::new(0));
-    let anomalies = Arc::new(AtomicU64::new(0));
-    let example = Arc::new(std::sync::Mutex::new(String::new()));
-    let rt = tokio::runtime::Builder::new_multi_thread()
-        .worker_threads(4)
-        .enable_all()
-        .build()
-        .unwrap();
-    let tag = dir.join("status.tag");
-    let (full_a, full_b) = rt.block_on(async {
-        let st = SharedState::start_all();
-        let prov = st.get_provision_shared_state();
-        let ags = st.get_agent_status_shared_state();
-        prov.set_event_log_threads_initialized().await.unwrap();
-        // calibration: what ONE writer alone publishes for each of the two status messages
-        let mut fulls = Vec::new();
-        for m in [&msg_a, &msg_b] {
-            let _ = ags
-                .set_module_status_message(m.clone(), AgentStatusModule::KeyKeeper)
-                .await;
-            provision::provision_timeup(Some(dir.clone()), prov.clone(), ags.clone()).await;
-            fulls.push(String::from_utf8_lossy(&std::fs::read(&tag).unwrap_or_default()).to_string());
-        }
-        let (full_a, full_b) = (fulls[0].clone(), fulls[1].clone());
-        let reader = {
-            let (stop, reads, anomalies, example) = (stop.clone(), reads.clone(), anomalies.clone(), example.clone());
-            let (full_a, full_b) = (full_a.clone(), full_b.clone());
-            let tag = tag.clone();
-            std::thread::spawn(move || {
-                while !stop.load(Ordering::Relaxed) {
-                    let r = std::fs::read(&tag);
-                    if let Err(e) = &r {
-                        // the calibration runs published status.tag already: from now on it must always be there
-                        reads.fetch_add(1, Ordering::Relaxed);
-                        if anomalies.fetch_add(1, Ordering::Relaxed) == 0 {
-                            *example.lock().unwrap() = format!("missing / unreadable ({})", e.kind());
-                        }
-                    }
-                    if let Ok(b) = r {
-                        reads.fetch_add(1, Ordering::Relaxed);
-                        let s = String::from_utf8_lossy(&b).to_string();
-                        if s != full_a && s != full_b && anomalies.fetch_add(1, Ordering::Relaxed) == 0 {
-                            let kind = if s.is_empty() {
-                                "empty".to_string()
-                            } else if full_a.starts_with(&s) || full_b.starts_with(&s) {
-                                format!("strict prefix of length {}", s.len())
-                            } else {
-                                format!("mixture of length {} (A-bytes {}, B-bytes {})", s.len(),
-                                        s.matches('A').count(), s.matches('B').count())
-                            };
-                            *example.lock().unwrap() = kind;
-                        }
-                    }
-                }
-            })
-        };
-        let mut hs = Vec::new();
-        for _w in 0..writers {
-            let (prov, ags, dir) = (prov.clone(), ags.clone(), dir.clone());
-            hs.push(tokio::spawn(async move {
-                for _ in 0..iters {
-                    provision::provision_timeup(Some(dir.clone()), prov.clone(), ags.clone()).await;
-                }
-            }));
-        }
-        let toggler = {
-            let (ags, stop) = (ags.clone(), stop.clone());
-            let (a, b) = (msg_a.clone(), msg_b.clone());
-            tokio::spawn(async move {
-                let mut i = 0u64;
-                while !stop.load(Ordering::Relaxed) {
-                    let m = if i % 2 == 0 { a.clone() } else { b.clone() };
-                    let _ = ags.set_module_status_message(m, AgentStatusModule::KeyKeeper).await;
-                    i += 1;
-                    tokio::task::yield_now().await;
-                }
-            })
-        };
-        for h in hs {
-            let _ = h.await;
-        }
-        stop.store(true, Ordering::Relaxed);
-        let _ = toggler.await;
-        let _ = reader.join();
-        (full_a, full_b)
-    });
-    let ex = example.lock().unwrap().clone();
-    let _ = std::fs::remove_dir_all(&dir);
-    json!({"iters": iters, "writers": writers, "reads": reads.load(Ordering::Relaxed),
-           "anomalies": anomalies.load(Ordering::Relaxed), "example": ex,
-           "complete_a": full_a, "complete_b": full_b})
-}
-
-// ------------------------------------------------------------------------------------------
-// single writer over an existing status.tag (run under strace kill injection)
-// ------------------------------------------------------------------------------------------
-fn run_write(sc: &Value) -> Value {
-    let rt = tokio::runtime::Builder::new_current_thread()
-        .enable_all()
-        .build()
-        .unwrap();
-    rt.block_on(async {
-        let st = SharedState::start_all();
-        let prov = st.get_provision_shared_state();
-        let ags = st.get_agent_status_shared_state();
-        prov.set_event_log_threads_initialized().await.unwrap();
-        let _ = ags
-            .set_module_status_message(sc["msg"].as_str().unwrap().to_string(), AgentStatusModule::KeyKeeper)
-            .await;
-        let dir = PathBuf::from(sc["dir"].as_str().unwrap());
-        // marker for the kill-point counter: everything before this line is start-up
-        let _ = std::fs::metadata(dir.join("MARK"));
-        provision::provision_timeup(Some(dir), prov, ags).await;
-    });
-    json!({"ok": true})
-}
-
+// thin entry point: the driver is compiled inside the crate (hook H6, src/drivers/c16.rs)
 fn main() {
-    write_config();
-    let stdin = io::stdin();
-    for line in stdin.lock().lines() {
-        let line = line.unwrap();
-        if line.trim().is_empty() {
-            continue;
-        }
-        let sc: Value = serde_json::from_str(&line).expect("bad scenario json");
-        let kind = sc["kind"].as_str().unwrap_or("").to_string();
-        let r = std::panic::catch_unwind(std::panic::AssertUnwindSafe(|| match kind.as_str() {
-            "sched" => run_sched(&sc),
-            "http" => run_http(&sc),
-            "threads" => run_threads(&sc),
-            "write" => run_write(&sc),
-            _ => json!({"error": "unknown kind"}),
-        }));
-        let v = match r {
-            Ok(v) => v,
-            Err(_) => json!({"panic": true}),
-        };
-        let stdout = io::stdout();
-        let mut o = stdout.lock();
-        writeln!(o, "@@ {}", v).unwrap();
-        o.flush().unwrap();
-    }
+    gpa::verif_drivers::c16::main()
 }
